@@ -8,7 +8,10 @@ proof  : lean/Pyunicorn/Properties/C14.lean (kernel loops = chord / horizontal
          round 3: betweenness-type measures under reversal, float kernel subgraph of the
          exact graph, order invariance of the horizontal graph, loop bounds from the source;
          round 4: rndF32 = binary32 round-to-nearest-even, monotone, scale-covariant; pathLen =
-         breadth-first search of C03's model; horizontal graph of float64 callers' data)
+         breadth-first search of C03's model; horizontal graph of float64 callers' data;
+         round 5: the float32 kernels and the constructor in FIELD arithmetic (classLogR) are
+         invariant under power-of-two rescalings without underflow, small integer series are
+         order-faithful, the compiled constructor = the exact constructor on the stored data)
 tie    : exact correspondence of the Lean model (lean/Pyunicorn/Model/Visibility.lean)
          with the compiled kernels at the kernel boundary and with
          `VisibilityGraph` at the object level, on data whose float32 slope
@@ -839,6 +842,11 @@ def run(ctx):
                 "differences (float links subset of exact links), generic float64 data for the horizontal graph; "
                 "round 4: rndF32 against the machine's binary32 conversion / subtraction / division (ties, exponent "
                 "boundaries, subnormals), path_lengths() matrices (N <= 14, connected and disconnected); "
+                "round 5: both natural kernels on series rescaled by 2^a, 2^c up to the edges of the binary32 range "
+                "(small integer series up to |x| = 2^22/n incl. steep nearly collinear ramps, dyadic, generic and "
+                "nearly collinear float32 data, scalings into the subnormal range), VisibilityGraph on float64 callers' "
+                "series and timings that are not binary32 numbers (doubles over 2^+-30, thirds, ramps, ties, NaN; all "
+                "flag combinations) and the same objects in other power-of-two units; "
                 "distinct = distinct (request); non-trivial = at least 3 samples, not all equal")
     ctx.trusted = common.DEFAULT_TRUSTED + [
         "float32: kernelNR rndF32 (differences and quotient rounded to binary32, RNE, no overflow) is "
@@ -1298,6 +1306,250 @@ def run(ctx):
                    "(exact series and order-faithful generic float32 data)", rreqs, rimpl)
     ctx.extra["float32_model_calls_compared"] = len(rreqs)
     phase("float32-model")
+
+    # ---------------- round 5: power-of-two rescalings of the compiled natural kernels ------------
+    # Theorem nvg_f32_pow2_invariant: if no difference and no rounded quotient the kernels form is
+    # subnormal before or after the rescaling (NoUflOn, decided by the Lean driver: `noufl`), the
+    # binary32 kernels return on x*2^a, t*2^c exactly what they return on x, t.  Checked on the
+    # compiled kernels (oracle: the affine clause on dyadic data) and, where the series is also
+    # Faithful, against the model rescaled inside Lean (`nvgRs`).  Theorems
+    # small_integer_series_faithful / nvg_f32_small_integer_series_rescaled_iff: for integer series
+    # with B*N <= 2^22 on the default timings both hypotheses are theorems — the driver must say 1
+    # (obligation) and the compiled kernels must return the exact (Fraction) criterion in every
+    # power-of-two unit (oracle).  Where NoUflOn fails (underflow) agreement is only recorded.
+    def scale_case(kind):
+        if kind in ("smallint", "smallint-big", "smallint-collinear"):
+            n = rng.randrange(3, 14 if rng.random() < 0.8 else 40)
+            B = rng.choice([3, 15, 255, 4095]) if kind == "smallint" else (2 ** 22) // n
+            if kind == "smallint-collinear":      # slopes that differ by 1/(dt dt') only
+                if rng.random() < 0.5:      # the steepest ramps the class allows: |dx| up to 2B
+                    sl = rng.choice([1, -1]) * rng.randint(B // n, (2 * B) // n)
+                    off = -B if sl > 0 else B
+                else:
+                    sl, off = rng.randint(-(B // (2 * n)), B // (2 * n)), rng.randint(-B // 4, B // 4)
+                xx = [Fr(max(-B, min(B, off + sl * k + rng.choice([0, 0, 0, 1, -1])))) for k in range(n)]
+            else:
+                xx = [Fr(rng.randint(-B, B)) for _ in range(n)]
+            tt = [Fr(k) for k in range(n)]
+            a = rng.choice([-126, -126, -100, -24, -1, 0, 1, 22, 60, 100, rng.randint(-126, 100)])
+            lo, hi = max(-126, a - 100), min(100, a + 102)
+            c = rng.choice([lo, hi, 0 if lo <= 0 <= hi else lo, rng.randint(lo, hi)])
+            return n, xx, tt, a, c
+        n = rng.randrange(3, 12)
+        if kind == "deep":                       # towards / into the subnormal range
+            xx, tt = [Fr(rng.randint(0, 15)) for _ in range(n)], [Fr(k) for k in range(n)]
+            return n, xx, tt, rng.randint(-149, -115), rng.choice([0, 0, rng.randint(-20, 20)])
+        if kind == "dyadic":
+            tt = [Fr(0)]
+            for _ in range(n - 1):
+                tt.append(tt[-1] + rng.choice([Fr(1, 4), Fr(1, 2), 1, 1, 2, 3]))
+            xx = [Fr(rng.randint(-64, 64), rng.choice([1, 2, 4, 8])) for _ in range(n)]
+        else:
+            ts = np.cumsum(nprng.rand(n).astype(np.float32) + np.float32(0.25)).astype(np.float32)
+            xs = nprng.rand(n).astype(np.float32)
+            if kind == "ramp32":
+                xs = (np.float32(0.3) * ts + xs * np.float32(2.0) ** -20).astype(np.float32)
+            xx, tt = fr32(xs), fr32(ts)
+        return n, xx, tt, rng.randint(-100, 100), rng.randint(-100, 100)
+
+    LIM = Fr(2) ** 126
+    pw_reqs, pw_cases = [], []
+    for cnum in range(300 if quick else 3000):
+        kind = rng.choice(["smallint", "smallint-big", "smallint-collinear", "dyadic", "generic32",
+                           "ramp32", "deep"])
+        n, xx, tt, a, c = scale_case(kind)
+        m = [rng.random() < 0.2 for _ in range(n)] if rng.random() < 0.5 else None
+        xn = xx if m is None else [None if mm else v for v, mm in zip(xx, m)]
+        xs_, ts_ = [None if v is None else v * Fr(2) ** a for v in xn], [v * Fr(2) ** c for v in tt]
+        try:
+            arrs = (f32(xn), f32(tt), f32(xs_), f32(ts_))
+        except (ValueError, OverflowError):
+            ctx.count("pow2:rejected-scaled-input-not-float32")
+            continue
+        pres = [k for k in range(n) if xn[k] is not None]
+        dxs = [abs(xn[k] - xn[i]) for i in pres for k in pres if i < k]
+        qs = [abs(xn[k] - xn[i]) / (tt[k] - tt[i]) for i in pres for k in pres if i < k]
+        big = max(dxs + qs + [tt[-1] - tt[0]] + [d * Fr(2) ** a for d in dxs]
+                  + [q * Fr(2) ** (a - c) for q in qs] + [(tt[-1] - tt[0]) * Fr(2) ** c])
+        if big >= LIM:
+            ctx.count("pow2:rejected-overflow")
+            continue
+        pw_reqs.append(f"noufl {n} {enc_vals(xn)} {enc_vals(tt)} {a} {c}")
+        pw_reqs.append(f"faithful {n} {enc_vals(xn)} {enc_vals(tt)}")
+        pw_cases.append((kind, n, xn, tt, a, c, m, arrs))
+    pw_ans = common.driver(ctx.pid, pw_reqs)
+
+    def run_nat(xa, ta, n, m):
+        A = np.zeros((n, n), dtype=np.int8)
+        try:
+            if m is None:
+                K._visibility_relations_no_missingvalues(xa, ta, n, A)
+            else:
+                K._visibility_relations_missingvalues(xa, ta, n, A, np.array(m, dtype=bool))
+        except (ZeroDivisionError, IndexError) as e:
+            return exc_name(e)
+        return enc_mat(A)
+
+    sreq2, simpl2, closed_bad = [], [], []
+    uf = {"cases": 0, "compiled_unchanged": 0, "model_agrees_with_compiled": 0}
+    uf_reqs, uf_impl = [], []
+    for q, (kind, n, xn, tt, a, c, m, arrs) in enumerate(pw_cases):
+        noufl, faith = pw_ans[2 * q] == "1", pw_ans[2 * q + 1] == "1"
+        base, scaled = run_nat(arrs[0], arrs[1], n, m), run_nat(arrs[2], arrs[3], n, m)
+        rq = (f"nvgRs {n} {enc_vals(xn)} {enc_vals(tt)} {a} {c}" if m is None else
+              f"nvgRs_mv {n} {enc_vals(xn)} {enc_vals(tt)} {a} {c} {enc_bools(m)}")
+        ctx.case(("pow2", tuple(xn), tuple(tt), a, c, None if m is None else tuple(m)), True)
+        rp = {"x": [enc_fr(v) for v in xn], "t": [enc_fr(v) for v in tt], "value_exponent": a,
+              "time_exponent": c, "mask": m}
+        kname = ("_visibility_relations_no_missingvalues" if m is None
+                 else "_visibility_relations_missingvalues")
+        if kind.startswith("smallint"):
+            # both hypotheses are theorems here
+            if not (noufl and faith):
+                closed_bad.append(f"{pw_reqs[2 * q]} -> {pw_ans[2 * q]}, faithful -> {pw_ans[2 * q + 1]}")
+            # the mask is exactly the NaN positions (no NaN without a mask), so both kernels
+            # must realise the criterion
+            E = enc_mat(expected_adjacency(xn, tt, False))
+            for label, obs in (("unscaled", base), (f"x*2^{a}, t*2^{c}", scaled)):
+                if obs != E:
+                    ctx.fail({"kind": "kernel", "kernel": kname,
+                              "clause": "float32-small-integer-series"},
+                             f"small integer series ({label}): the compiled natural kernel differs "
+                             "from the exact criterion", {**rp, "expected": E, "observed": obs})
+        if noufl:
+            ctx.count("pow2:no-underflow-" + kind)
+            if base != scaled:
+                ctx.fail({"kind": "kernel", "kernel": kname, "clause": "float32-pow2-rescaling"},
+                         f"the natural kernel's answer changes when the values are multiplied by 2^{a} "
+                         f"and the timings by 2^{c} (no underflow, no overflow)",
+                         {**rp, "expected": base, "observed": scaled})
+            if faith:
+                sreq2.append(rq)
+                simpl2.append(scaled)
+        else:
+            ctx.count("pow2:underflow-" + kind)
+            uf["cases"] += 1
+            uf["compiled_unchanged"] += base == scaled
+            uf_reqs.append(rq)
+            uf_impl.append(scaled)
+    uf["model_agrees_with_compiled"] = sum(
+        mdl == imp for mdl, imp in zip(common.driver(ctx.pid, uf_reqs), uf_impl))
+    ctx.extra["pow2_rescaling_with_underflow"] = uf
+    ctx.obligation("the Lean driver decides NoUflOn and Faithful true on small integer series "
+                   "(B*N <= 2^22, default timings, exponents in range) — the hypotheses theorems "
+                   f"noUflOn_intSeries / small_integer_series_faithful prove "
+                   f"({sum(1 for cse in pw_cases if cse[0].startswith('smallint'))} series)",
+                   "correspondence", not closed_bad, "\n".join(closed_bad[:5]))
+    ctx.correspond("Lean kernelNR rndF32 on the series rescaled inside the model (scaleVals, scaleTimes) "
+                   "== compiled natural kernels on the rescaled float32 arrays (NoUflOn and Faithful "
+                   "decided in Lean)", sreq2, simpl2)
+    phase("pow2-rescaling")
+
+    # ---------------- round 5: the constructor in FIELD arithmetic on float64 callers' data --------
+    # classLogR rndF32 = VisibilityGraph.__init__ with its conversions (to_cy(., FIELD) of series and
+    # timings, np.arange(N, dtype=FIELD)) and the float kernels.  Generic doubles (not binary32
+    # numbers) for series *and* timings, all four flag combinations, NaN, default / given timings,
+    # wide power-of-two ranges.  Obligation where the stored data are order-faithful (FaithfulConv,
+    # decided in Lean: theorem class_f32_is_exact_on_stored_data — any correct implementation must
+    # agree) and for the horizontal graph (no arithmetic: class_f32_horizontal); elsewhere recorded.
+    # Oracle, independent of the model: on faithful stored data the adjacency must be the Fraction
+    # criterion of the *stored* float32 values.
+    creq, cfa, cimpl, cmeta = [], [], [], []
+    sc_req, sc_meta = [], []
+    for cnum in range(160 if quick else 1600):
+        n = rng.randrange(2, 12)
+        xs = (nprng.rand(n) - 0.3) * 2.0 ** rng.randint(-30, 30)
+        kind = rng.choice(["doubles", "doubles", "thirds", "ramp"])
+        if kind == "thirds":
+            xs = np.array([rng.randint(-9, 9) / 3.0 for _ in range(n)])
+        tdef = rng.random() < 0.35
+        ts = None if tdef else np.cumsum(nprng.rand(n) + 0.25) * 2.0 ** rng.randint(-20, 20)
+        if kind == "ramp" and ts is not None:
+            xs = 0.3 * ts + nprng.rand(n) * float(ts[-1]) * 2.0 ** -rng.choice([18, 22, 24])
+        if rng.random() < 0.35:
+            xs[rng.randrange(n)] = np.nan
+        if rng.random() < 0.2:
+            xs[rng.randrange(n)] = xs[rng.randrange(n)]
+        missing, hor = rng.random() < 0.6, rng.random() < 0.3
+        xe = [None if np.isnan(v) else Fr(float(v)) for v in xs]
+        te = None if ts is None else [Fr(float(v)) for v in ts]
+        try:
+            vg = VG(xs.copy(), timings=None if ts is None else ts.copy(), missing_values=missing,
+                    horizontal=hor, silence_level=3)
+            obs = enc_mat(np.array(vg.adjacency))
+        except (ZeroDivisionError, IndexError) as e:
+            vg, obs = None, exc_name(e)
+        tenc = "-" if te is None else enc_vals(te)
+        creq.append(f"matR {enc_vals(xe)} {tenc} {int(missing)} {int(hor)}")
+        cfa.append(f"faithfulc {enc_vals(xe)} {tenc}")
+        cimpl.append(obs)
+        cmeta.append((xs, ts, missing, hor, vg))
+        if not hor:
+            # the same object in other power-of-two units (class_f32_pow2_invariant_decided)
+            a2 = rng.randint(-70, 70)
+            c2 = 0 if ts is None else rng.randint(-70, 70)
+            # overflow is outside the model (IsF32 has no largest exponent): keep every difference
+            # and slope of the rescaled data below 2^120
+            fin = xs[~np.isnan(xs)]
+            mx = 2.0 * float(np.max(np.abs(fin))) if len(fin) else 0.0
+            mdt = 1.0 if ts is None else float(np.min(np.diff(ts))) if n > 1 else 1.0
+            tmax = float(n) if ts is None else float(ts[-1])
+            if not (mx * 2.0 ** a2 < 2.0 ** 120 and mx * 2.0 ** a2 / (mdt * 2.0 ** c2) < 2.0 ** 120
+                    and tmax * 2.0 ** c2 < 2.0 ** 120 and mx / mdt < 2.0 ** 120):
+                ctx.count("float64-callers:rescaling-rejected-overflow")
+            else:
+                try:
+                    vg2 = VG(xs * 2.0 ** a2, timings=None if ts is None else ts * 2.0 ** c2,
+                             missing_values=missing, horizontal=False, silence_level=3)
+                    obs2 = enc_mat(np.array(vg2.adjacency))
+                except (ZeroDivisionError, IndexError) as e:
+                    obs2 = exc_name(e)
+                sc_req.append(f"nouflc {enc_vals(xe)} {tenc} {a2} {c2}")
+                sc_meta.append((xs, ts, missing, a2, c2, obs, obs2))
+        ctx.count(f"float64-callers:{kind}:{'default' if tdef else 'given'}-timings:"
+                  f"{'horizontal' if hor else 'natural'}")
+        ctx.case(("matR", xs.tobytes().hex(), None if ts is None else ts.tobytes().hex(), missing, hor), True)
+    cf = common.driver(ctx.pid, cfa)
+    oreq, oimpl, rreq2, rimpl2 = [], [], [], []
+    for rq, f, obs, (xs, ts, missing, hor, vg) in zip(creq, cf, cimpl, cmeta):
+        if hor or f == "1":
+            oreq.append(rq)
+            oimpl.append(obs)
+        else:
+            rreq2.append(rq)
+            rimpl2.append(obs)
+        if f == "1" and not hor and vg is not None and (missing or not np.isnan(xs).any()):
+            # independent of the model: the criterion on the values the object stores
+            xst = [None if np.isnan(v) else Fr(float(v)) for v in vg.time_series]
+            tst = [Fr(float(v)) for v in vg.timings]
+            E = enc_mat(expected_adjacency(xst, tst, False))
+            if obs != E:
+                ctx.fail(sig(missing, False, "float64-caller-data", bool(np.isnan(xs).any())),
+                         "natural graph of float64 data differs from the exact criterion on the stored "
+                         "float32 values (stored data order-faithful)",
+                         {"x": [float(v) for v in xs], "t": None if ts is None else [float(v) for v in ts],
+                          "expected": E, "observed": obs})
+    ctx.correspond("Lean classLogR rndF32 (constructor incl. FIELD conversions, float kernels) == "
+                   "VisibilityGraph on float64 callers' series and timings (stored data order-faithful, "
+                   "or horizontal)", oreq, oimpl)
+    nsc = 0
+    for ans, (xs, ts, missing, a2, c2, obs, obs2) in zip(common.driver(ctx.pid, sc_req), sc_meta):
+        if ans != "1":
+            ctx.count("float64-callers:rescaled-with-underflow")
+            continue
+        nsc += 1
+        ctx.count("float64-callers:rescaled-no-underflow")
+        if obs != obs2:
+            ctx.fail(sig(missing, False, "affine", bool(np.isnan(xs).any())),
+                     f"natural graph of float64 data changes under x -> 2^{a2} x, t -> 2^{c2} t "
+                     "(no underflow in conversions, differences or slopes: decided in Lean)",
+                     {"x": [float(v) for v in xs], "t": None if ts is None else [float(v) for v in ts],
+                      "value_exponent": a2, "time_exponent": c2, "expected": obs, "observed": obs2})
+    ctx.extra["constructor_pow2_rescalings_checked"] = nsc
+    rmod = common.driver(ctx.pid, rreq2)
+    ctx.extra["constructor_float_model_on_non_faithful_data"] = {
+        "requests": len(rreq2), "agree": sum(a == b for a, b in zip(rmod, rimpl2))}
+    phase("constructor-float32")
 
     # ---------------- round 3: the float kernel never invents a link ---------------------------
     # Data on which every difference x[k]-x[i], t[k]-t[i] is a float32 number (ExactDiffs, decided
